@@ -381,6 +381,25 @@ func propC05(run *Run, n int) {
 	withNullDeep := func() GenCfg { return DeepCfg() }
 	choices = append(choices, optChoice{OptMerge, withNull, "MERGE-nulls"}, optChoice{OptMerge, withNullDeep, "MERGE-nulls-deep"},
 		optChoice{OptSetMrg, withNull, "SET+MERGE-nulls"}, optChoice{OptMsetMrg, withNull, "MULTISET+MERGE-nulls"})
+	// fixed pairs that do not depend on the random stream: hash-confusable shapes at aligned positions inside arrays, for
+	// every option profile (values exchanged between keys, a key exchanged with its value, the empty array against the
+	// empty string, the same members in another order)
+	for _, ch := range choices {
+		for _, pr := range [][2]*Val{
+			{VArr(VObj("x", VNum(1), "y", VNum(2))), VArr(VObj("x", VNum(2), "y", VNum(1)))},
+			{VArr(VObj("a", VStr("b"))), VArr(VObj("b", VStr("a")))},
+			{VArr(VArr()), VArr(VStr(""))},
+			{VObj("tags", VArr(VStr("x"), VArr(), VStr("y"))), VObj("tags", VArr(VStr("x"), VStr(""), VStr("y")))},
+			{VArr(VObj("args", VArr(VArr()))), VArr(VObj("args", VArr(VStr(""))))},
+			{VArr(VArr(VNum(1), VNum(2)), VArr(VNum(3))), VArr(VArr(VNum(2), VNum(1)), VArr(VNum(3)))},
+		} {
+			if ch.o.Has("K") {
+				continue
+			}
+			run.Count("fixed:hash-confusable-pairs")
+			addC05Case(run, ch.o, ch.label+"-fixed", pr[0], pr[1])
+		}
+	}
 	for i := 0; i < n; i++ {
 		ch := choices[r.Intn(len(choices))]
 		cfg := ch.cfg()
